@@ -240,19 +240,21 @@ theorem C14_prefix_sound_partial (sc : SC) (p w v : Bytes) (ch : Chain)
     have := C14_tru_subst_partial w u hu
     exact ⟨C14_query_wellformed u, this.2.1⟩
 
-/-! ### known finding: a TAB written as "&#9" + non-digit is not seen by Go's decoder -/
+/-! ### repaired finding: a TAB written as "&#9" + non-digit was not seen by Go's decoder -/
 
 /-- the property text's clause "whitespace or control characters (also when written as character references)
-    are rejected", read with the browser's decoder -/
+    are rejected", read with the browser's decoder. On the pinned tree this was FALSE (witness `/a&#9b/`, and in its
+    scheme variant `java&#9script:` — accepted, read as `javascript:` by browsers; kernel-checked in
+    Proofs/C14Sound.lean against the code before the repair). Since the repair (numeric character references
+    without ';' are refused in URL prefixes) no counterexample is known; the statement itself is not proved. -/
 def C14_rejects_browser_whitespace_statement : Prop :=
   ∀ p : Bytes, (CharRef.decodeAttr p).any isWsOrCtl = true → validateURLPrefix p = false
 
-/-- witness: `/a&#9b/` — the browser decodes `&#9` to TAB, html.UnescapeString leaves it alone -/
-theorem C14_false_short_decimal_charref : ¬ C14_rejects_browser_whitespace_statement := by
-  intro h
-  have := h [47, 97, 38, 35, 57, 98, 47] (by decide)
-  revert this
-  decide
+/-- the two former witnesses are rejected now -/
+theorem C14_short_decimal_charref_rejected :
+    validateURLPrefix [47, 97, 38, 35, 57, 98, 47] = false ∧
+    validateURLPrefix (B "java&#9script:") = false ∧ validateURLPrefix (B "/x&#x9y/") = false := by
+  decide +kernel
 
 /-! ### known finding: two actions in one TrustedResourceURL attribute value -/
 
